@@ -172,6 +172,16 @@ impl LinkModel {
     }
 }
 
+/// Account for bytes the victim's application has read: the stream is decoded as a byte stream
+/// (read boundaries are unspecified), every completed 16-byte segment is recorded as consumed.
+fn note_consumed(sh: &Shared, acc: &mut Vec<u8>, got: &[u8]) {
+    acc.extend_from_slice(got);
+    while acc.len() >= 16 {
+        sh.consumed.borrow_mut().insert((conn_of_byte(acc[0]), u16::from_le_bytes([acc[1], acc[2]])));
+        acc.drain(..16);
+    }
+}
+
 /// 16 bytes = one segment; byte 0 names the connection, bytes 1..3 number the write (from 1)
 fn payload(id: u8, n: u16) -> [u8; 16] {
     let mut b = [id; 16];
@@ -424,14 +434,14 @@ async fn victim(sh: Rc<Shared>, name: String, inc: u64, sc: Scenario) -> turmoil
             tokio::task::spawn_local(async move {
                 let _g = Guard::new(&sh2, &n2);
                 let mut b = [0u8; 16];
+                // bytes read so far that do not yet make up a whole 16-byte segment
+                let mut acc: Vec<u8> = Vec::new();
                 match mode {
                     StreamMode::Echo => loop {
                         match s.read(&mut b).await {
                             Ok(0) | Err(_) => break,
                             Ok(n) => {
-                                if n == 16 {
-                                    sh2.consumed.borrow_mut().insert((conn_of_byte(b[0]), u16::from_le_bytes([b[1], b[2]])));
-                                }
+                                note_consumed(&sh2, &mut acc, &b[..n]);
                                 if s.write_all(&b[..n]).await.is_err() {
                                     break;
                                 }
@@ -443,25 +453,18 @@ async fn victim(sh: Rc<Shared>, name: String, inc: u64, sc: Scenario) -> turmoil
                         match s.read(&mut b).await {
                             Ok(0) | Err(_) => break,
                             Ok(n) => {
-                                if n == 16 {
-                                    sh2.consumed.borrow_mut().insert((conn_of_byte(b[0]), u16::from_le_bytes([b[1], b[2]])));
-                                }
+                                note_consumed(&sh2, &mut acc, &b[..n]);
                                 bump(&sh2, &n2)
                             }
                         }
                     },
                     StreamMode::Nibble => {
-                        // a read never spans two segments: 5 + 5 + 5 + 1 bytes per 16-byte segment
-                        let mut seg: Vec<u8> = Vec::new();
+                        // 5 bytes at a time; a read may or may not span two 16-byte segments
                         loop {
                             match s.read(&mut b[..5]).await {
                                 Ok(0) | Err(_) => break,
                                 Ok(n) => {
-                                    seg.extend_from_slice(&b[..n]);
-                                    if seg.len() >= 16 {
-                                        sh2.consumed.borrow_mut().insert((conn_of_byte(seg[0]), u16::from_le_bytes([seg[1], seg[2]])));
-                                        seg.clear();
-                                    }
+                                    note_consumed(&sh2, &mut acc, &b[..n]);
                                     bump(&sh2, &n2);
                                     tokio::time::sleep(Duration::from_millis(1)).await;
                                 }
